@@ -486,3 +486,16 @@ unsafe fn lists_run_inner(n: usize, ops: &[ListsOp]) -> alloc::vec::Vec<ListsVie
     }
     views
 }
+
+/// The phase flags of this thread's collector: `(collecting, finalizing, dropping)`; `finalizing` is always `false`
+/// without the `finalization` feature. `None` if the state couldn't be accessed.
+pub fn phase_flags() -> Option<(bool, bool, bool)> {
+    crate::state::try_state(|state| {
+        #[cfg(feature = "finalization")]
+        let finalizing = state.is_finalizing();
+        #[cfg(not(feature = "finalization"))]
+        let finalizing = false;
+        (state.is_collecting(), finalizing, state.is_dropping())
+    })
+    .ok()
+}
